@@ -15,6 +15,14 @@ CHECKS = {
     ),
 }
 
+CHECKS["C08"] = dict(
+    category="model_checking",
+    technique="TLA+ spec Topology.tla (physical view, hypnotoad layout, BOUT++ reading of the integers) model-checked by TLC over a box of configurations; traces of the real index code (stubbed numerics) validated clause by clause against the spec by TLC",
+    text="TLC proves, for every (topology, nx per segment, ny per region, guard count) in a box, that the adjacency derived from the physical picture of each X-point, pushed through the global index layout, equals the adjacency BOUT++ reads from the documented ixseps/jyseps/ny_inner (after the loader's index repairs) on every cell, plus tiling, symmetry, ordering, theta continuity and the mirror map. The real makeRegions/Mesh/BoutMesh/writeGridfile index code is then run for hundreds of configurations per topology (including strongly unequal legs) and Trace_Topology.tla compares every observed table with the specification. Right level: the property quantifies over all size combinations, which TLC enumerates and the stubbed mesh makes cheap to run through the code.",
+    note="Trusted: my transcription of BOUT++'s topology rules and loader repairs; the MeshRegion numerics are stubbed in this engine (the unstubbed path is covered by the grid traces of other checks). Bounded: nx<=3, ny<=11, guards<=2 in MC; seeded sizes up to 16 cells per region in traces. Isolated X-point (TORPEX) is model-checked but not yet run through the code.",
+    design_ref="DESIGN.md 4.2, 5 (C08)",
+)
+
 NOT_YET = {}
 
 NOT_APPLICABLE = {
